@@ -60,7 +60,7 @@ func build(kind string) *env {
 		core = zapcore.NewCore(enc(), zapcore.Lock(newSink()), zap.DebugLevel)
 	case "combine":
 		core = zapcore.NewCore(enc(), zap.CombineWriteSyncers(newSink(), newSink()), zap.DebugLevel)
-	case "lockreflect", "lockconsole":
+	case "lockreflect", "lockconsole", "lockfault":
 		core = zapcore.NewCore(enc(), zapcore.Lock(newSink()), zap.DebugLevel)
 	case "combine1": // a single destination must be serialised just like several
 		core = zapcore.NewCore(enc(), zap.CombineWriteSyncers(newSink()), zap.DebugLevel)
@@ -204,10 +204,19 @@ type driver struct {
 	want  map[string][2]int // line -> (thread, idx)
 }
 
+const preludeMsg = "prelude-with-unencodable-field"
+
 func parseItem(item string) *driver {
 	f := strings.Split(item, "|")
 	pre, _ := strconv.Atoi(f[2])
 	d := &driver{kind: f[1], pre: pre, progs: strings.Split(f[3], ";"), want: map[string][2]int{}}
+	if d.kind == "lockfault" {
+		var buf bytes.Buffer
+		clock := hx.NewFixedClock()
+		l := zap.New(zapcore.NewCore(encFor(d.kind), zapcore.AddSync(&buf), zap.DebugLevel), zap.WithClock(clock))
+		l.Info(preludeMsg, zap.Reflect("ch", make(chan int)), zap.Int("after", 1))
+		d.want[buf.String()] = [2]int{0, 0}
+	}
 	for t, p := range d.progs {
 		for i := 0; i < len(p); i++ {
 			if isLog(p[i]) {
@@ -227,6 +236,10 @@ func (d *driver) mk() mc.Exec {
 	return mc.Exec{
 		Body: func() {
 			e = build(d.kind)
+			if d.kind == "lockfault" {
+				// history: an entry whose reflected field cannot be encoded was logged before the threads start
+				e.logger.Info(preludeMsg, zap.Reflect("ch", make(chan int)), zap.Int("after", 1))
+			}
 			var wg vsync.WaitGroup
 			for t, p := range d.progs {
 				t, p := t, p
@@ -315,7 +328,13 @@ func main() {
 	progs := []string{"I", "B", "S", "C", "W", "II", "IB", "BI", "SW", "CW", "WI"}
 	singles := []string{"I", "B", "W", "C"}
 	var items []string
-	for _, kind := range []string{"lock", "combine", "combine1", "open", "open1", "buffered", "tee", "teebuf", "lockreflect", "lockconsole"} {
+	for _, kind := range []string{"lock", "combine", "combine1", "open", "open1", "buffered", "tee", "teebuf", "lockreflect", "lockconsole", "lockfault"} {
+		if kind == "lockfault" {
+			for _, pq := range []string{"I;I", "I;B", "I;W", "W;S", "I;I;I", "I;W;C"} {
+				items = append(items, fmt.Sprintf("c04|%s|%d|%s", kind, pre, pq))
+			}
+			continue
+		}
 		if kind == "lockconsole" {
 			for _, pq := range []string{"I;I", "I;W", "I;C", "W;S", "II;I", "I;W;C", "IW;S"} {
 				items = append(items, fmt.Sprintf("c04|%s|%d|%s", kind, pre, pq))
